@@ -82,7 +82,9 @@ MachineAgrees(m, c) ==
       [] c.op = "backward" -> Assert(MachineBackward(m, c.a.obs) = SumNum(m, c.a.obs), "backward machine # path sum")
       [] OTHER -> TRUE
 \* an accepted Viterbi path that is not the one the machine layer (tie-breaks of the code) takes
-Drift(m, e) == e.c.op = "viterbi" /\ e.r.path # MachineViterbi(m, e.c.a.obs).path
+\* (exact ties are resolved by floating-point rounding in the code: any resolution is the machine's,
+\* see VitConsistent; where every candidate is zero nothing is rounded and the machine's choice is THE choice)
+Drift(m, e) == e.c.op = "viterbi" /\ ~VitConsistent(m, e.c.a.obs, e.r.path)
 
 Init == run \in 1..Len(Rec) /\ idx = 0 /\ ok = TRUE
 Next ==
